@@ -110,7 +110,11 @@ thread_local! {
     static NATIVE: RefCell<(u64, u64, u32)> = const { RefCell::new((0, 0, 0)) };
 }
 
-unsafe extern "C" fn native_host(_id: u32, args: *const u64, nargs: usize, ret: *mut u64) {
+unsafe extern "C" fn native_host(id: u32, args: *const u64, nargs: usize, ret: *mut u64) {
+    if id >= 8000 {
+        // value probes of the C glue (C10's subject)
+        return;
+    }
     NATIVE.with(|n| {
         let mut n = n.borrow_mut();
         n.1 = if nargs > 0 { *args } else { 0 };
